@@ -262,6 +262,10 @@ PPRStep(s, e) ==
         IF ~e.ok THEN {}
         ELSE Chk(pulledOK, "PulledMatchesLog") \cup Chk(pulledInc, "PulledInOrder") \cup Chk(noEcho, "NoEcho") \cup
              Chk(minSound, "MinVVSound") \cup Chk(minNotHeldBack, "MinVVNotHeldBack") \cup Chk(gcSafe, "GCSafe") \cup
+             \* C11/C06: every answered request of a GC-participating client rewrites (or, when it
+             \* leaves, deletes) its version-vector row - the ghost `row` follows the logged write, so
+             \* a request that skips the write must not go unnoticed
+             Chk((known /\ ~s.gcoff[k]) => e.vvset, "RowWritten") \cup
              Chk(~stale => res.cp[1] <= Len(log2), "ResponseCheckpointBound") \cup
              Chk((known /\ e.rpc = "sync" /\ ~e.pushonly /\ ~e.concurrent) => res.cp[1] >= s.lastResCp[k][1], "CheckpointMonotone") \cup
              Chk((e.nopresdoc \/ e.nopres) => (\A i \in DOMAIN res.pulled : res.pulled[i].pres = "none"), "NoPresenceInResponses") \cup
